@@ -476,6 +476,8 @@ def finish(ctx, mod):
         print("VIOLATION property=%s replay=%s" % (prop, path))
     elif not proof["ok"] or ctx.disagreements:
         # the property is no longer shown to hold
+        for d in ctx.disagreements[:3]:      # make the run diagnosable from its log alone
+            log("DISAGREEMENT (model vs implementation):", json.dumps(jsonable(d))[:700])
         violations = 1
         path = write_replay(ctx, {"property": prop, "kind": "no-failing-input-found", "seed": ctx.seed,
                                   "tier": ctx.tier,
